@@ -22,6 +22,7 @@ package kv
 //vx:redirect google.golang.org/protobuf/types/known/timestamppb.Now vxTsNow
 //vx:redirect github.com/openbao/openbao/sdk/v2/helper/locksutil.LockIndexForKey vxLockIndex
 //vx:redirect (*google.golang.org/protobuf/types/known/timestamppb.Timestamp).AsTime vxTsAsTime
+//vx:redirect (*google.golang.org/protobuf/types/known/timestamppb.Timestamp).CheckValid vxTsCheckValid
 //vx:unwind 400
 
 import (
@@ -68,6 +69,7 @@ func vxJSONMarshal(v any) ([]byte, error)                    { return vxBox(v), 
 func vxProtoMarshal(m proto.Message) ([]byte, error)         { return vxBox(m), nil }
 func vxTsNow() *timestamppb.Timestamp                        { return &timestamppb.Timestamp{Seconds: 7} }
 func vxLockIndex(key string) uint8                           { return 0 }
+func vxTsCheckValid(t *timestamppb.Timestamp) error         { return nil }
 func vxTsAsTime(t *timestamppb.Timestamp) time.Time          { return time.Time{} }
 
 func vxVersionKey(b *versionedKVBackend, ctx context.Context, key string, version uint64, s logical.Storage) (string, error) {
@@ -326,5 +328,106 @@ func VxDataDelete() {
 	if err != nil {
 		vxReach("delete: failed")
 		vxAssert("failed delete leaves the latest version undeleted", m.Versions[uint64(current)].DeletionTime == nil)
+	}
+}
+
+// ---- delete-versions / undelete / destroy: touch only the versions named; a failure leaves the readable state intact
+
+type vxVerState struct {
+	deleted, destroyed, hasData bool
+}
+
+func vxVersions(current int) []vxVerState {
+	m := vxMetaNow()
+	out := make([]vxVerState, current+1)
+	for v := 1; v <= current; v++ {
+		vm := m.Versions[uint64(v)]
+		if vm != nil {
+			out[v] = vxVerState{deleted: vm.DeletionTime != nil, destroyed: vm.Destroyed}
+		}
+		out[v].hasData = vxE.committed.find("versions/foo/"+strconv.Itoa(v)) >= 0
+	}
+	return out
+}
+
+func VxVersionOps() {
+	current := 3
+	transactional := vxBool("transactional storage")
+	b, store, pre := vxSetup(current, transactional)
+	vxCfg = &Configuration{}
+	// arbitrary prior state of the three versions
+	m := vxMetaNow()
+	for v := 1; v <= current; v++ {
+		switch vxChoose("prior state of a version(live,deleted,destroyed)", 3) {
+		case 1:
+			m.Versions[uint64(v)].DeletionTime = vxTsNow()
+		case 2:
+			m.Versions[uint64(v)].Destroyed = true
+			i := vxE.committed.find("versions/foo/" + strconv.Itoa(v))
+			vxE.committed.keys = append(vxE.committed.keys[:i:i], vxE.committed.keys[i+1:]...)
+			vxE.committed.vals = append(vxE.committed.vals[:i:i], vxE.committed.vals[i+1:]...)
+		}
+	}
+	vxE.committed.vals[vxE.committed.find("metadata/foo")] = vxBox(m)
+	_ = pre
+	before := vxVersions(current)
+	// the versions named by the request: any non-empty subset of {1,2,3} (plus a non-existent one)
+	var named []int
+	isNamed := make([]bool, current+2)
+	for v := 1; v <= current+1; v++ {
+		if vxBool("request names version") {
+			named = append(named, v)
+			isNamed[v] = true
+		}
+	}
+	if len(named) == 0 {
+		return
+	}
+	op := vxChoose("operation(delete versions, undelete, destroy)", 3)
+	fail := vxChoose("failing storage call (8 = none)", 9)
+	if fail < 8 {
+		vxE.failAt = fail
+	}
+	req := &logical.Request{Storage: store, Path: "x/foo"}
+	fd := &framework.FieldData{Raw: map[string]any{"path": "foo", "versions": named}}
+	var err error
+	switch op {
+	case 0:
+		_, err = b.pathDeleteWrite()(context.Background(), req, fd)
+	case 1:
+		_, err = b.pathUndeleteWrite()(context.Background(), req, fd)
+	default:
+		_, err = b.pathDestroyWrite()(context.Background(), req, fd)
+	}
+	vxAssert("key lock released on exit", vxHeld(vxE.lock) == 0)
+	after := vxVersions(current)
+	mm := vxMetaNow()
+	vxAssert("the current version number is never changed by these operations", mm != nil && mm.CurrentVersion == uint64(current) && len(mm.Versions) == current)
+	failed := err != nil
+	for v := 1; v <= current; v++ {
+		a, bf := after[v], before[v]
+		if !isNamed[v] {
+			vxAssert("versions not named by the request are untouched", a == bf)
+			continue
+		}
+		vxAssert("a destroyed version is never resurrected", !bf.destroyed || (a.destroyed && !a.hasData))
+		vxAssert("a live version that is still listed as live keeps its data", !(!a.destroyed && !a.hasData))
+		if failed {
+			if transactional {
+				vxAssert("transactional storage: a failed operation changes nothing", a == bf)
+			}
+			continue
+		}
+		switch op {
+		case 0:
+			vxReach("versions: deleted")
+			vxAssert("delete marks a live version deleted and keeps its data (soft delete)", bf.destroyed || (a.deleted && a.hasData && !a.destroyed))
+		case 1:
+			vxReach("versions: undeleted")
+			vxAssert("undelete clears the deletion mark of a non-destroyed version", bf.destroyed || (!a.deleted && a.hasData))
+		default:
+			vxReach("versions: destroyed")
+			vxAssert("destroy removes the data and marks the version destroyed", a.destroyed && !a.hasData)
+		}
 	}
 }
